@@ -5,7 +5,7 @@ import ast
 
 from ..cfg import CFG, ENTRY, EXIT, always_raises
 from ..core import AnalysisError, calls_in, call_name, dotted, unparse, walk_no_nested
-from ..match import if_chain, inline, pack_call, returns_of, single_assignments, eq_const_test
+from ..match import canon, if_chain, inline, pack_call, returns_of, single_assignments, eq_const_test
 from ..report import Ctx
 from ..terms import CPU, NODES, Term, ZERO, emit_term, implementers, node_class_terms, real_method
 from .c01 import size_map
@@ -70,7 +70,8 @@ def r2_opcode_emitters(ctx: Ctx) -> None:
         if base is None:
             raise AnalysisError(f"{sl.where}: length `{unparse(pred)}` not modelled")
         want_w = f"guess_value_size({sl.params()[1]}, {sl.params()[2]})"
-        ctx.check(wexpr == want_w, f"{ci.name}:supposed_length:width", f"width key is {wexpr}, emission uses guess_value_size(value_node, size)")
+        em_w = {unparse(c) for c in calls_in(em.node, "guess_value_size")}
+        ctx.check(wexpr == want_w or (wexpr in em_w), f"{ci.name}:supposed_length:width", f"width key is {wexpr}, emission uses {sorted(em_w)}")
         # emitted: 1 opcode byte + emit_value arm
         ev = real_method(repo, ci, "emit_value", "OpcodeProtocol")
         if ev is None:
@@ -115,9 +116,12 @@ def r2_opcode_emitters(ctx: Ctx) -> None:
         a_recv, a_args = at.value  # type: ignore[misc]
         ok = e_recv == a_recv and e_args[0] == a_args[0] and e_args[-1] == a_args[-1]
     ctx.check(ok, "OpcodeNode:same-emitter-and-arguments", f"emit uses {et}, pc_after uses {at}")
+    srcs = {}
     for fn in (em, pa):
-        srcs = {unparse(n.value) for n in walk_no_nested(fn.node) if isinstance(n, ast.Assign) and unparse(n.targets[0]) == "opcode_emitter"}
-        ctx.check(srcs == {"self._get_emitter()"}, f"{fn.qualname}:emitter-source", f"emitter obtained from {sorted(srcs)}")
+        srcs[fn.qualname] = sorted({unparse(n.value) for n in walk_no_nested(fn.node) if isinstance(n, ast.Assign) and unparse(n.targets[0]) == "opcode_emitter"})
+    vals = list(srcs.values())
+    ctx.check(len(vals) == 2 and vals[0] == vals[1] and len(vals[0]) == 1 and vals[0][0].startswith("self."), "OpcodeNode:emitter-source",
+              f"emission and size prediction obtain the emitter through the same lookup; found {srcs}")
 
 
 def _loop_info(loop: ast.For) -> tuple[set[str], bool]:
@@ -190,19 +194,18 @@ def r3_traversal_agreement(ctx: Ctx) -> None:
     emits = calls_in(lp, suffix="emit")
     ok = len(emits) == 1 and unparse(emits[0]) == "node.emit(self.resolver.reloc_address)"
     ctx.check(ok, "Program.emit:emit-call", f"each node is emitted at the current run address; found {[unparse(e) for e in emits]}")
-    aug = {unparse(n.target): unparse(n.value) for n in walk_no_nested(lp) if isinstance(n, ast.AugAssign) and isinstance(n.op, ast.Add)}
-    for cursor in ("self.resolver.pc", "self.resolver.reloc_address"):
-        ctx.check(aug.get(cursor) == "len(node_bytes)", f"Program.emit:advance:{cursor}",
-                  f"advances by len(node_bytes); found `{aug.get(cursor)}`")
-    # the advances happen whenever bytes were appended: same guard as the append
-    parents: dict[int, ast.AST] = {}
-    for p in ast.walk(lp):
-        for c in ast.iter_child_nodes(p):
-            parents[id(c)] = p
-    augs = [n for n in walk_no_nested(lp) if isinstance(n, ast.AugAssign) and unparse(n.target) in
-            ("self.resolver.pc", "self.resolver.reloc_address", "current_block")]
-    guards = {unparse(n.target): unparse(getattr(parents.get(id(n)), "test", None)) for n in augs}
-    ctx.check(len(set(guards.values())) == 1, "Program.emit:advance-guard", f"append and both advances share one guard; found {guards}")
+    augs = [n for n in walk_no_nested(lp) if isinstance(n, ast.AugAssign) and isinstance(n.op, ast.Add)]
+    gpe = CFG(pe.node)
+    conds = {}
+    for cursor in ("self.resolver.pc", "self.resolver.reloc_address", "current_block"):
+        hits = [n for n in augs if unparse(n.target) == cursor]
+        if cursor != "current_block":
+            val = canon(pe.node, hits[0].value, keep=("node_bytes",)) if len(hits) == 1 else None
+            ctx.check(len(hits) == 1 and val == "len(node_bytes)", f"Program.emit:advance:{cursor}", f"advances by len(node_bytes), once per node; found `{val}` ({len(hits)} site(s))")
+        if len(hits) == 1:
+            conds[cursor] = frozenset(gpe.path_conditions(gpe.node_of(hits[0]), pe.node))
+    # the advances happen whenever bytes were appended: same conditions as the append
+    ctx.check(len(conds) == 3 and len(set(conds.values())) == 1, "Program.emit:advance-guard", f"append and both advances happen under the same conditions; found { {k: sorted(v) for k, v in conds.items()} }")
 
 
 def r4_state_dependent_width_rechecked(ctx: Ctx) -> None:
